@@ -359,7 +359,11 @@ func (t *Tokenizer) tokenizeBuffer(buf []byte, last bool) error {
 			if digitMap[b] == numDigit {
 				off++
 			}
-			t.mode = fracMap
+			if t.num.Div == 1 { // no digit yet, one is required
+				t.mode = dotMap
+			} else {
+				t.mode = fracMap
+			}
 		case numFrac:
 			t.num.AddFrac(b)
 			t.mode = fracMap
